@@ -577,6 +577,21 @@ func emitSchemaErrors(out *Out) {
 		{"schema-true", `true`, `{}`, "valid"},
 		{"schema-false", `false`, `{}`, "invalid"},
 		{"unknown-draft", `{"$schema":"http://example.com/nope","type":"object"}`, `{}`, "error"},
+		// format is an assertion under draft-07 (RFC 3339 for date-time) and an annotation under 2020-12
+		{"format-date-time-plain", fmtSchema7("date-time"), `{"t":"2020-01-01T00:00:00Z"}`, "valid"},
+		{"format-date-time-offset-fraction", fmtSchema7("date-time"), `{"t":"2020-01-01T23:59:59.123456789+05:30"}`, "valid"},
+		{"format-date-time-lower-case", fmtSchema7("date-time"), `{"t":"2020-01-01t00:00:00z"}`, "valid"},
+		{"format-date-time-leap-second", fmtSchema7("date-time"), `{"t":"1998-12-31T23:59:60Z"}`, "valid"},
+		{"format-date-time-comma-fraction", fmtSchema7("date-time"), `{"t":"2020-01-01T00:00:00,5Z"}`, "invalid"},
+		{"format-date-time-one-digit-hour", fmtSchema7("date-time"), `{"t":"2020-01-01T1:00:00Z"}`, "invalid"},
+		{"format-date-time-no-zone", fmtSchema7("date-time"), `{"t":"2020-01-01T00:00:00"}`, "invalid"},
+		{"format-date-time-month-13", fmtSchema7("date-time"), `{"t":"2020-13-01T00:00:00Z"}`, "invalid"},
+		{"format-date-time-not-a-string", fmtSchema7("date-time"), `{"t":5}`, "valid"},
+		{"format-date-time-2020-12-annotation-only", `{"$schema":"https://json-schema.org/draft/2020-12/schema","properties":{"t":{"format":"date-time"}}}`, `{"t":"not a date"}`, "valid"},
+		{"format-date-valid", fmtSchema7("date"), `{"t":"2020-02-29"}`, "valid"},
+		{"format-date-feb-30", fmtSchema7("date"), `{"t":"2020-02-30"}`, "invalid"},
+		{"format-ipv4-valid", fmtSchema7("ipv4"), `{"t":"127.0.0.1"}`, "valid"},
+		{"format-ipv4-256", fmtSchema7("ipv4"), `{"t":"256.1.1.1"}`, "invalid"},
 		{"ref-to-another-file-unreached", `{"type":"object","properties":{"a":{"$ref":"other.json"}}}`, `{}`, "error"},
 		{"ref-to-another-file-reached", `{"type":"object","properties":{"a":{"$ref":"other.json"}}}`, `{"a":1}`, "error"},
 		{"ref-to-file-url-under-not", `{"$schema":"http://json-schema.org/draft-07/schema#","not":{"$ref":"file:///nowhere/x.json"}}`, `{"a":1}`, "error"},
@@ -598,3 +613,7 @@ func emitSchemaErrors(out *Out) {
 }
 
 func init() { gens["C18"] = genC18 }
+
+func fmtSchema7(f string) string {
+	return `{"$schema":"http://json-schema.org/draft-07/schema#","properties":{"t":{"format":"` + f + `"}}}`
+}
